@@ -64,7 +64,7 @@ func LogicalName(v ssa.Value) string {
 				idx = i
 			}
 		}
-		return logical(paramRef[fn.String()].P, cur, idx, x.Name(), x.Type().String())
+		return logical(paramRef[refKey(fn)].P, cur, idx, x.Name(), x.Type().String())
 	case *ssa.FreeVar:
 		fn := x.Parent()
 		if fn == nil {
@@ -79,7 +79,7 @@ func LogicalName(v ssa.Value) string {
 			}
 		}
 		// free variables are listed in order of first use: match by name and type, not position
-		ref := paramRef[fn.String()].F
+		ref := paramRef[refKey(fn)].F
 		for _, r := range ref {
 			if r.N == x.Name() {
 				return x.Name()
@@ -147,7 +147,7 @@ func (p *Prog) GenParamRef() ([]byte, error) {
 		if fn.Pkg == nil && fn.Parent() == nil {
 			continue
 		}
-		key := fn.String()
+		key := refKey(fn)
 		if !strings.Contains(key, "github.com/restic/restic/") {
 			continue
 		}
@@ -183,4 +183,26 @@ func (p *Prog) GenParamRef() ([]byte, error) {
 	}
 	sb.WriteString("}\n")
 	return []byte(sb.String()), nil
+}
+
+// refKey names a function in the reference table. A named function is its own name; a function
+// literal is named by its parent, its signature and its position among the parent's literals of
+// that signature — so that a new literal of another shape, inserted before it, does not shift it
+// onto another literal's entry (the compiler's $N numbering would).
+func refKey(fn *ssa.Function) string {
+	par := fn.Parent()
+	if par == nil {
+		return fn.String()
+	}
+	sig := fn.Signature.String()
+	k := 0
+	for _, a := range par.AnonFuncs {
+		if a == fn {
+			break
+		}
+		if a.Signature.String() == sig {
+			k++
+		}
+	}
+	return refKey(par) + "#" + sig + "#" + string(rune('0'+k%10)) + string(rune('0'+(k/10)%10))
 }
